@@ -48,6 +48,8 @@ def run(check, an: Analysis):
     an.cls(ISCOPE)
     from . import c04
     c04.check_task_close(check, an, 'K')
+    # ... on every way out of the until-block, after new tasks are refused
+    c04.check_close_on_every_exit(check, an, 'K', [ISCOPE])
 
     # ---- P ------------------------------------------------------------------
     aenter = an.callee(ISCOPE, '__aenter__')
